@@ -334,11 +334,19 @@ def run_static(case, ctx):
     ctx.count("fam_static")
     what = case["what"]
     if what == "key_size":
-        for ks in (0, 33, -1, 100):
+        good = SparseMerkleTree(key_size=2)
+        good.set(b"\x01\x02", b"v")
+        for ks in (0, 33, -1, 100, 64, 256):
             r = cut(SparseMerkleTree, key_size=ks, expect=(Exception,))
             judge(r, ValidationError, "SparseMerkleTree(key_size=%d)" % ks)
-            ctx.count("bad_calls")
-            ctx.evaluated()
+            # the alternative constructor, with an otherwise valid database and 32-byte root
+            before = dict(good.db)
+            r = cut(SparseMerkleTree.from_db, good.db, good.root_hash, key_size=ks, expect=(Exception,))
+            judge(r, ValidationError, "SparseMerkleTree.from_db(db, root, key_size=%d)" % ks)
+            if good.db != before:
+                raise Violation("badarg-changed-state", "refused from_db(key_size=%d) changed the database handed in" % ks)
+            ctx.count("bad_calls", 2)
+            ctx.evaluated(2)
             ctx.shape(("static", "key_size", ks))
     elif what == "ref_count_nonpruning":
         r = cut(HexaryTrie, {}, prune=False, ref_count={}, expect=(Exception,))
